@@ -30,6 +30,9 @@ JudgeFamily(e) ==
                         \o Fails(e, j, "SameAddedMolecules",
                                  (~e.redox_template /\ m[j].solved /\ m[j].by = base.by)
                                     => (SameBag(m[j].add_l, base.add_l) /\ SameBag(m[j].add_r, base.add_r)))
+                        \* the reagent template is free, not the kind of completion: hydrogen / oxygen and its side
+                        \o Fails(e, j, "SameRedoxKind",
+                                 (m[j].solved /\ m[j].by = base.by) => m[j].redox_sig = base.redox_sig)
                    ELSE <<>>)
     IN F[Len(m)]
 
